@@ -305,8 +305,10 @@ class Sym:
                     st.pts[place["l"]] = st.pts[src]
         st.env[key] = e
 
-    def havoc_arg(self, st, o, uid):
-        """A call received `o`; if it is a mutable reference, whatever it points to may change."""
+    def havoc_arg(self, st, o, uid, looked_through=False):
+        """A call received `o`; if it is a mutable reference, whatever it points to may change.
+        looked_through: the callee's body was run in place, so the cells it reached through this very pointer value hold what it
+        wrote (its own opaque calls havocked them where needed); only aliases the caller knows under another name are forgotten."""
         if o["k"] not in ("copy", "move"):
             return
         pl = o["place"]
@@ -315,10 +317,17 @@ class Sym:
             return
         ptr = self.read_place(st, pl)
         st.ver[ptr] = uid
-        for k in [k for k in st.env if isinstance(k, tuple) and k[0] == "H" and k[1] == ptr]:
-            del st.env[k]
+        if not looked_through:
+            for k in [k for k in st.env if isinstance(k, tuple) and k[0] == "H" and k[1] == ptr]:
+                del st.env[k]
         if not pl["p"] and pl["l"] in st.pts:
             tgt, bk = st.pts[pl["l"]]
+            hops = 0
+            while looked_through and tgt["p"] and tgt["p"][0]["k"] == "deref" and tgt["l"] in st.pts and hops < 4:
+                # a reborrow `&mut *r` of a reference `r = &mut local...`: the pointee is that local place
+                base = st.pts[tgt["l"]][0]
+                tgt = {"l": base["l"], "p": list(base["p"]) + list(tgt["p"][1:])}
+                hops += 1
             key = pkey(tgt)
             old = st.env.get(key)
             if old is None:
@@ -329,6 +338,8 @@ class Sym:
             if tdi is not None:
                 tptr = self.read_place(st, {"l": tgt["l"], "p": tgt["p"][:tdi]})
                 sfx = projstr(tgt["p"][tdi + 1:])
+                if looked_through and tptr == ptr and not sfx:
+                    return      # a plain reborrow `&mut *p` of the pointer the callee wrote through: same cells
                 for k in [k for k in st.env if isinstance(k, tuple) and k[0] == "H" and k[1] == tptr and (k[2].startswith(sfx) or sfx.startswith(k[2]))]:
                     del st.env[k]
             if not any(el["k"] == "deref" for el in tgt["p"]):
@@ -591,7 +602,7 @@ class Sym:
                                         extra="inlined", vers=ce.vers, ncond=ce.ncond)
             s2.blocks = list(p.blocks)
             for a_ in t["args"]:
-                self.havoc_arg(s2, a_, uid)
+                self.havoc_arg(s2, a_, uid, looked_through=True)
             self.assign(s2, t["dest"], ret)
             self._walk(body, t["t"], s2, out, depth)
 
@@ -610,6 +621,9 @@ class Sym:
         ("Option", "ok_or"): (("None", 0, ("wrap", "std::result::Result", "Err", ("arg", 1))), ("Some", 1, ("wrap", "std::result::Result", "Ok", ("payload",)))),
         ("Option", "ok_or_else"): (("None", 0, ("wrap", "std::result::Result", "Err", ("apply0", 1))), ("Some", 1, ("wrap", "std::result::Result", "Ok", ("payload",)))),
         ("Option", "unwrap_or_else"): (("None", 0, ("apply0", 1)), ("Some", 1, ("payload",))),
+        # chaining: the second step runs only on the success variant, the failure variant passes through unchanged
+        ("Option", "and_then"): (("None", 0, ("const", ("agg", "adt", "std::option::Option", "None", ()))), ("Some", 1, ("apply", 1))),
+        ("Result", "and_then"): (("Ok", 0, ("apply", 1)), ("Err", 1, ("wrap", "std::result::Result", "Err", ("payload",)))),
     }
     PURE_PREDICATES = ("is_ok", "is_err", "is_some", "is_none", "is_empty")
 
@@ -644,6 +658,8 @@ class Sym:
                 return None if inner is None else ("wrap", act[1], act[2], inner)
             if act[0] == "payload":
                 return act
+            if act[0] == "const":
+                return ("value", act[1])
             return ("value", act)
         arms = []
         for (vname, dv, act) in spec:
